@@ -87,13 +87,45 @@ theorem checkOp_none_iff (g : Guard) (o : Op) : checkOp g o = none ↔ OpWithin 
     simp only [h1, Bool.false_eq_true, if_false, ne_eq, not_true_eq_false,
       (firstMissing_none_iff _ _).2 hn, (firstMissing_none_iff _ _).2 he, (firstMissing_none_iff _ _).2 ha]
 
-theorem firstBadOp_none_iff (g : Guard) (ops : List Op) :
-    firstBadOp g ops = none ↔ ∀ o ∈ ops, checkOp g o = none := by
+/-- An emitted op stays inside the declared writes, including the state-dependent target (the
+    previous source of an edge it moves in the pre-state store `st`). -/
+structure OpWithinIn (g : Guard) (st : Store) (o : Op) : Prop where
+  op : OpWithin g o
+  moved : ∀ n, movedPrev g.warp st o = some n → n ∈ g.nodesWrite
+
+theorem checkOpIn_none_iff (g : Guard) (st : Store) (o : Op) :
+    checkOpIn g st o = none ↔ OpWithinIn g st o := by
+  unfold checkOpIn
+  cases hc : checkOp g o with
+  | some v =>
+    simp only
+    constructor
+    · intro h; cases h
+    · intro h; have := (checkOp_none_iff g o).2 h.op; rw [hc] at this; cases this
+  | none =>
+    have hw := (checkOp_none_iff g o).1 hc
+    simp only
+    cases hm : movedPrev g.warp st o with
+    | none =>
+      constructor
+      · intro _; exact ⟨hw, fun n hn => by rw [hm] at hn; cases hn⟩
+      · intro _; rfl
+    | some n =>
+      by_cases hn : n ∈ g.nodesWrite
+      · constructor
+        · intro _; exact ⟨hw, fun m hm' => by rw [hm] at hm'; cases hm'; exact hn⟩
+        · intro _; simp only [hn, if_true]
+      · constructor
+        · intro h; simp only [hn, if_false] at h; cases h
+        · intro h; exact absurd (h.moved n hm) hn
+
+theorem firstBadOp_none_iff (g : Guard) (st : Store) (ops : List Op) :
+    firstBadOp g st ops = none ↔ ∀ o ∈ ops, checkOpIn g st o = none := by
   induction ops with
   | nil => simp [firstBadOp]
   | cons o os ih =>
     simp only [firstBadOp]
-    cases h : checkOp g o with
+    cases h : checkOpIn g st o with
     | some v => simp [h]
     | none => simp [h, ih]
 
